@@ -214,7 +214,12 @@ class CacheRunner:
                 f['delta'] = op.get('delta', 1)
                 d = op.get('default', 0)
                 f['default'] = 'n' if d is None else d
-                r = cache.incr(k, f['delta'], d, retry=self.retry)
+                if op.get('via') == 'decr':
+                    f['m'] = 'decr'
+                    f['delta'] = -f['delta']
+                    r = cache.decr(k, f['delta'], d, retry=self.retry)
+                else:
+                    r = cache.incr(k, f['delta'], d, retry=self.retry)
                 res = 'i%d' % r
             elif m == 'get':
                 f['read'] = int(op.get('read', 0))
